@@ -296,7 +296,8 @@ fn has_shadowing(t: &GTree, above: &mut Vec<usize>) -> bool {
 }
 
 /// Some attribute is in a namespace declared as default namespace on its element or above
-/// (inside `t`): the DeduplicateTracker sets a flag.  (`noFlag` of Lemmas/ScopeIdem.lean, negated.)
+/// (inside `t`): the DeduplicateTracker of the code before d434a2d set a flag here.  Input statistic
+/// only (the shape on which the old second-call defect depended).
 fn sets_tracker_flag(vocab: &Vocab, t: &GTree, defaults: &mut Vec<usize>) -> bool {
     let n0 = defaults.len();
     let mut found = false;
@@ -324,7 +325,7 @@ fn sets_tracker_flag(vocab: &Vocab, t: &GTree, defaults: &mut Vec<usize>) -> boo
 }
 
 /// Some element declares a prefix twice, or a prefix declared above is bound to ANOTHER namespace
-/// further down the path (`noRebind` of Lemmas/ScopeIdem.lean, negated).
+/// further down the path.  Input statistic only (the shape on which the old second-call defect depended).
 fn has_rebinding(t: &GTree, above: &mut Vec<(usize, usize)>) -> bool {
     let n0 = above.len();
     let mut found = false;
